@@ -43,29 +43,30 @@ const KnownClash = "raw-entry-satisfies-trie-node-request"
 // ---- case description (JSON: corpus, replay) -----------------------------
 
 type AccIn struct {
-	Key          string      `json:"key"`
-	Nonce        uint64      `json:"nonce"`
-	Storage      [][2]string `json:"storage,omitempty"`
-	Code         string      `json:"code,omitempty"`
-	CodeFromNode []int       `json:"code_from_node,omitempty"` // [account j < i, k]: code := blob of the k-th hashed node of j's storage trie
-	CodeHashRaw  *string     `json:"code_hash_raw,omitempty"`  // overrides the CodeHash field bytes
-	Deleg        string      `json:"deleg,omitempty"`          // delegations blob (stored under its hash)
-	DelegFromNode []int      `json:"deleg_from_node,omitempty"`
-	DelegRaw     *string     `json:"deleg_raw,omitempty"` // overrides the DelegationsHash field bytes
-	RawLeaf      string      `json:"raw_leaf,omitempty"`  // leaf value that is not an account
-	RootOfCode   *int        `json:"root_of_code,omitempty"` // storage root := hash of account j's code (not a trie node)
+	Key           string      `json:"key"`
+	Nonce         uint64      `json:"nonce"`
+	Storage       [][2]string `json:"storage,omitempty"`
+	Code          string      `json:"code,omitempty"`
+	CodeFromNode  []int       `json:"code_from_node,omitempty"` // [account j < i, k]: code := blob of the k-th hashed node of j's storage trie
+	CodeHashRaw   *string     `json:"code_hash_raw,omitempty"`  // overrides the CodeHash field bytes
+	Deleg         string      `json:"deleg,omitempty"`          // delegations blob (stored under its hash)
+	DelegFromNode []int       `json:"deleg_from_node,omitempty"`
+	DelegRaw      *string     `json:"deleg_raw,omitempty"`    // overrides the DelegationsHash field bytes
+	RawLeaf       string      `json:"raw_leaf,omitempty"`     // leaf value that is not an account
+	RootOfCode    *int        `json:"root_of_code,omitempty"` // storage root := hash of account j's code (not a trie node)
+	RootBlob      string      `json:"root_blob,omitempty"`    // storage root := hash of this blob (stored in the source, not a trie node)
 }
 
 type SOp struct {
-	Op    string `json:"op"` // missing deliver batch commit restart revive finish
-	N     int    `json:"n,omitempty"`
-	Pick  int    `json:"pick,omitempty"`
-	Picks []int  `json:"picks,omitempty"`
-	How   string `json:"how,omitempty"`
+	Op    string   `json:"op"` // missing deliver batch commit restart revive finish
+	N     int      `json:"n,omitempty"`
+	Pick  int      `json:"pick,omitempty"`
+	Picks []int    `json:"picks,omitempty"`
+	How   string   `json:"how,omitempty"`
 	Hows  []string `json:"hows,omitempty"`
-	Batch bool   `json:"batch,omitempty"`
-	Peer  int    `json:"peer,omitempty"`
-	Force bool   `json:"force,omitempty"`
+	Batch bool     `json:"batch,omitempty"`
+	Peer  int      `json:"peer,omitempty"`
+	Force bool     `json:"force,omitempty"`
 }
 
 type CaseIn struct {
@@ -107,17 +108,17 @@ type accInfo struct {
 }
 
 type Src struct {
-	db      *youdb.MemDatabase
-	tdb     *trie.Database
-	root    common.Hash
-	state   bool
-	need    map[common.Hash][]common.Hash // entries that must be present whenever the key is present
-	nodes   map[common.Hash]bool          // hashes of trie nodes
-	raws    map[common.Hash]bool          // hashes requested as raw entries
-	content map[string][]byte             // trie mode
-	accs    []*accInfo
+	db         *youdb.MemDatabase
+	tdb        *trie.Database
+	root       common.Hash
+	state      bool
+	need       map[common.Hash][]common.Hash // entries that must be present whenever the key is present
+	nodes      map[common.Hash]bool          // hashes of trie nodes
+	raws       map[common.Hash]bool          // hashes requested as raw entries
+	content    map[string][]byte             // trie mode
+	accs       []*accInfo
 	wellFormed bool // every leaf is an account with 32-byte code hash; honest sync must finish
-	all     []common.Hash
+	all        []common.Hash
 }
 
 func (s *Src) clash(h common.Hash) bool { return s.raws[h] && s.nodes[h] && len(s.need[h]) > 0 }
@@ -294,6 +295,14 @@ func buildSource(in *CaseIn) *Src {
 				ai.hasDel = false
 			}
 			ai.delegH = common.BytesToHash(delegHash)
+			if a.RootBlob != "" {
+				blob := unhex(a.RootBlob)
+				ai.root = crypto.Keccak256Hash(blob)
+				s.db.Put(ai.root[:], blob)
+				ai.storage = nil
+				ai.rootOdd = true
+				s.wellFormed = false
+			}
 			if a.RootOfCode != nil && *a.RootOfCode >= 0 && *a.RootOfCode < i && s.accs[*a.RootOfCode].hasCode {
 				ai.root = s.accs[*a.RootOfCode].codeH
 				ai.storage = nil
@@ -438,8 +447,8 @@ func (it *interner) tables() (string, string, string) {
 // ---- failing writer ------------------------------------------------------------
 
 type limitPutter struct {
-	db    youdb.Putter
-	left  int
+	db   youdb.Putter
+	left int
 }
 
 var errWrite = errors.New("injected write failure")
@@ -455,12 +464,12 @@ func (p *limitPutter) Put(k, v []byte) error {
 // ---- running a case ----------------------------------------------------------------
 
 type runResult struct {
-	coq     string
-	what    string // first oracle violation ("" = none)
-	detail  string
-	known   bool // the violation is the listed finding class
-	classes map[string]int
-	steps   int
+	coq        string
+	what       string // first oracle violation ("" = none)
+	detail     string
+	known      bool // the violation is the listed finding class
+	classes    map[string]int
+	steps      int
 	nontrivial bool
 }
 
@@ -481,20 +490,20 @@ func errCode(err error, blob []byte) int {
 }
 
 type runner struct {
-	in    *CaseIn
-	src   *Src
-	it    *interner
-	dst   *youdb.MemDatabase
-	sched *trie.Sync
-	ts    *downloader.VerifC19TrieSync
-	ops   []string
-	res   *runResult
-	pool  []common.Hash
-	dropped []common.Hash
+	in          *CaseIn
+	src         *Src
+	it          *interner
+	dst         *youdb.MemDatabase
+	sched       *trie.Sync
+	ts          *downloader.VerifC19TrieSync
+	ops         []string
+	res         *runResult
+	pool        []common.Hash
+	dropped     []common.Hash
 	outstanding map[common.Hash]bool // popped by Missing and not yet answered successfully
-	dumpEvery int
-	sinceDump int
-	cs        *callerState
+	dumpEvery   int
+	sinceDump   int
+	cs          *callerState
 }
 
 func (r *runner) newSync() {
